@@ -122,9 +122,9 @@ class Gen(object):
         self.backend = backend or "sim"
         self.yield_every = rng.choice([None, None, None, 1, 1, 2, 7])
         # many webentities: the id counter crosses byte boundaries of its header field
-        self.wide = prop in ("C01", "C02", "C04", "C05", "C07", "C08", "C09", "C10", "C13", "C19", "C20") and rng.random() < (0.012 if tier == "quick" else 0.02)
-        self.large = self.wide and prop in ("C01", "C04", "C05", "C07", "C08", "C13") and rng.random() < 0.25
-        self.many_ids = (prop in ("C07", "C08") and rng.random() < (0.015 if tier == "quick" else 0.03)) or (prop == "C12" and rng.random() < (0.02 if tier == "quick" else 0.04)) or (prop == "C11" and rng.random() < (0.006 if tier == "quick" else 0.012))
+        self.wide = prop in ("C01", "C02", "C04", "C05", "C07", "C08", "C09", "C10", "C13", "C19", "C20") and rng.random() < ((0.012 if tier == "quick" else 0.02) if prop != "C04" else 0.03)
+        self.large = self.wide and prop in ("C01", "C04", "C05", "C07", "C08", "C13") and rng.random() < (0.25 if prop != "C04" else 0.4)
+        self.many_ids = (prop in ("C07", "C08") and rng.random() < (0.015 if tier == "quick" else 0.03)) or (prop == "C12" and rng.random() < (0.02 if tier == "quick" else 0.04)) or (prop == "C11" and rng.random() < 0.05)
         # swarm: in some runs the caller's input streams (add_pages / add_links arguments) fail mid-request
         self.input_faults = prop in ("C01", "C02", "C03", "C04", "C05", "C06", "C07", "C08", "C12", "C13", "C19", "C20", "C11", "C15") and rng.random() < 0.3
         self.bulk = prop in ("C03", "C07", "C08", "C10", "C11", "C15", "C18", "C20") and rng.random() < ((0.01 if tier == "quick" else 0.03) if prop not in ("C18", "C11") else 0.06)
@@ -196,6 +196,13 @@ class Gen(object):
                 self.pool.append(base + b"p:n%04d|" % x)
                 if r.random() < 0.5:
                     self.created_prefixes.append(base + b"p:n%04d|" % x)
+            if r.random() < 0.7:
+                # what follows a big directory names its far ends (the run is kept short after it):
+                # a webentity on the last / first sibling, a page and a link below it
+                far = base + b"p:n%04d|" % r.choice([seq["count"] - 1, seq["count"] - 1, 0, seq["count"] // 2])
+                self.created_prefixes.append(far)
+                self.queue.append({"op": "create_we", "prefixes": [enc(far)]})
+                self.queue.append({"op": "add_links", "links": [[enc(far + b"p:deep|"), enc(base + b"p:n%04d|" % r.randrange(seq["count"]))]]})
             return seq
         if k == "add_pages" and r.random() < 0.03:
             return {"op": k, "lrus": [], "crawled": r.random() < 0.5}
@@ -295,6 +302,14 @@ class Gen(object):
                 # close falls exactly on the boundary
                 self.queue.extend(x for _ in range(4) for x in ({"op": "create_we", "prefixes": [enc(self.prefix())]}, {"op": "reopen"}))
                 return {"op": "create_many", "base": enc(b"s:http|h:com|h:many|"), "count": r.choice([65533, 65534, 65535]), "spread": True}
+            if r.random() < 0.7:
+                # what follows names webentities with large ids: one with two prefixes and a link
+                # from under one prefix to under the other, one more restart-straddling creation
+                p1, p2 = self.prefix(), self.prefix()
+                if p1 != p2:
+                    self.created_prefixes.extend([p1, p2])
+                    self.queue.append({"op": "create_we", "prefixes": [enc(p1), enc(p2)]})
+                    self.queue.append({"op": "add_links", "links": [[enc(p1 + b"p:from|"), enc(p2 + b"p:to|")], [enc(p2 + b"p:to|"), enc(p1 + b"p:from|")]]})
             return {"op": "create_many", "base": enc(b"s:http|h:com|h:many|"), "count": r.choice([254, 255, 256, 257, 300])}
         if k == "reopen" and self.prop in ("C12", "C11", "C06", "C04") and r.random() < 0.12:
             return {"op": "reopen_older_release"}
